@@ -783,12 +783,14 @@ where
             }
         };
 
-        let probability = unsafe {
-            // SAFETY: see above "SAFETY" comments on all paths that lead here.
-            right_sided_cumulative
-                .wrapping_sub(&left_sided_cumulative)
-                .into_nonzero_unchecked()
-        };
+        // For any valid (i.e., nondecreasing, `[0, 1]`-valued) CDF, the difference is nonzero,
+        // see above "SAFETY" comments on all paths that lead here. But `Distribution` is a
+        // safe trait, so we must not rely on its validity for memory safety (same check and
+        // message as in `left_cumulative_and_probability`).
+        let probability = right_sided_cumulative
+            .wrapping_sub(&left_sided_cumulative)
+            .into_nonzero()
+            .expect("Invalid underlying continuous probability distribution.");
         (symbol, left_sided_cumulative, probability)
     }
 }
